@@ -45,7 +45,10 @@ def eval (op : String) (args : List Sexp) : Option (Res Int) := do
   | "ymd", [y, m, d, h, mi, s] => pure (dtYmd (← intOf y) (← intOf m) (← intOf d) (← intOf h) (← intOf mi) (← intOf s))
   | "ymd", [y, m, d, h, mi, s, us] =>
       pure (dtYmd7 (← intOf y) (← intOf m) (← intOf d) (← intOf h) (← intOf mi) (← intOf s) (← intOf us))
-  | "date", [t] | "ts", [t] => pure (checkRange (← timeOf t))
+  | "ts", [t] => pure (checkRange (← timeOf t))
+  | "date", [t] =>                        -- dt(<datetime.date>): rebuilt from its fields
+      let t ← timeOf t
+      if 0 ≤ t ∧ t < MAXUS then pure (dtDate t) else none
   | "str", [.atom "uk", s] => dtStr true (← strOf s)
   | "str", [.atom "us", s] => dtStr false (← strOf s)
   | "rt", [t] => dtStr true (dt2str (← timeOf t))
